@@ -9,9 +9,11 @@ import (
 	"fmt"
 	"math/bits"
 	"os"
+	"path/filepath"
 	"strings"
 
 	"github.com/codenotary/immudb/embedded/ahtree"
+	"github.com/codenotary/immudb/embedded/appendable/multiapp"
 	"github.com/codenotary/immudb/embedded/htree"
 	"verif/harness/vk"
 )
@@ -48,6 +50,38 @@ func leafHash(d []byte) dig {
 	return sha256.Sum256(append([]byte{0}, d...))
 }
 
+// refMTH: RFC 6962 Merkle tree hash (leaf = H(0x00||d), node = H(0x01||l||r), split at the largest
+// power of two below the size), the harness' own oracle
+func refMTH(ps [][]byte) dig {
+	if len(ps) == 1 {
+		return leafHash(ps[0])
+	}
+	k := 1
+	for 2*k < len(ps) {
+		k *= 2
+	}
+	l, rr := refMTH(ps[:k]), refMTH(ps[k:])
+	b := append([]byte{1}, l[:]...)
+	return sha256.Sum256(append(b, rr[:]...))
+}
+
+func copyTree(src, dst string) error {
+	return filepath.Walk(src, func(p string, info os.FileInfo, err error) error {
+		if err != nil {
+			return err
+		}
+		rel, _ := filepath.Rel(src, p)
+		if info.IsDir() {
+			return os.MkdirAll(filepath.Join(dst, rel), 0755)
+		}
+		b, err := os.ReadFile(p)
+		if err != nil {
+			return err
+		}
+		return os.WriteFile(filepath.Join(dst, rel), b, 0644)
+	})
+}
+
 // ---------------- AHtree histories ----------------
 func ahtHistory(r *vk.Run, maxN int, withProofs bool) error {
 	dir, err := os.MkdirTemp("", "vh-c08-aht")
@@ -67,8 +101,16 @@ func ahtHistory(r *vk.Run, maxN int, withProofs bool) error {
 		return err
 	}
 	defer func() { t.Close() }()
-	var payloads [][]byte // the model: the list of payloads
-	hw := 0               // largest size ever reached: upper bound of the commit-log entries on disk
+	// the specification (coq/Merkle/AHT.v spec_step2): current content, content the commit log on
+	// disk stands for, and whether an append is buffered since the last sync point
+	var payloads, disk [][]byte
+	dirty := false
+	syncPoint := func() {
+		if dirty {
+			disk = append([][]byte{}, payloads...)
+			dirty = false
+		}
+	}
 	ops := []string{}
 	mops := []string{} // the history as operations of the Coq digest-log model (Merkle/AHT.v)
 	nops := 10 + r.Rng.Intn(3*maxN)
@@ -83,11 +125,9 @@ func ahtHistory(r *vk.Run, maxN int, withProofs bool) error {
 			if err != nil {
 				return fmt.Errorf("Append #%d after ops %v: %w", len(payloads)+1, ops, err)
 			}
-			payloads = append(payloads, d)
+			payloads = append(append([][]byte{}, payloads...), d)
+			dirty = true
 			mops = append(mops, "A2 "+hx(d))
-			if len(payloads) > hw {
-				hw = len(payloads)
-			}
 			ops = append(ops, "append")
 			if n != uint64(len(payloads)) {
 				r.Finding(fmt.Sprintf("ahtree.Append returned n=%d, expected %d", n, len(payloads)))
@@ -98,7 +138,10 @@ func ahtHistory(r *vk.Run, maxN int, withProofs bool) error {
 			if err := t.ResetSize(uint64(ns)); err != nil {
 				return fmt.Errorf("reset: %w", err)
 			}
-			payloads = payloads[:ns]
+			if ns < len(payloads) {
+				syncPoint() // ResetSize syncs first; the commit-log file keeps its entries
+				payloads = append([][]byte{}, payloads[:ns]...)
+			}
 			mops = append(mops, fmt.Sprintf("R2 %d", ns))
 			ops = append(ops, fmt.Sprintf("reset(%d)", ns))
 		case x < 17:
@@ -106,21 +149,56 @@ func ahtHistory(r *vk.Run, maxN int, withProofs bool) error {
 				return err
 			}
 			ops = append(ops, "sync")
-		case x < 18:
-			if len(payloads) < hw {
-				// a rewound tree leaves a stale commit-log tail on disk which a restart brings
-				// back (probed separately by resetReopenProbe); keep histories free of it
-				continue
-			}
+		case x < 18 && r.Rng.Intn(2) == 0:
+			// Close + Open: the size comes back from the commit-log file (after a ResetSize that no
+			// append followed that is the pre-rewind content: known finding, in the model)
 			if err := t.Close(); err != nil {
 				return err
 			}
 			t, err = ahtree.Open(dir, mkopts())
 			if err != nil {
-				return fmt.Errorf("reopen: %w", err)
+				return fmt.Errorf("reopen after ops %v: %w", ops, err)
 			}
+			syncPoint()
+			payloads = append([][]byte{}, disk...)
 			mops = append(mops, "Reopen2")
 			ops = append(ops, "reopen")
+		case x < 18:
+			// crash image: a copy of the directory whose commit log is cut to c entries while the
+			// payload and digest logs keep everything (payload/digest logs flushed, commit-log
+			// entries of the last appends not synced); the run continues on the image
+			if err := t.Close(); err != nil {
+				return err
+			}
+			syncPoint()
+			c := r.Rng.Intn(len(disk) + 1)
+			img, err := os.MkdirTemp("", "vh-c08-img")
+			if err != nil {
+				return err
+			}
+			defer os.RemoveAll(img)
+			if err := copyTree(dir, img); err != nil {
+				return err
+			}
+			cl, err := multiapp.Open(filepath.Join(img, "commit"), multiapp.DefaultOptions().WithFileExt("di"))
+			if err != nil {
+				return fmt.Errorf("crash image: open commit log: %w", err)
+			}
+			if err := cl.SetOffset(int64(c) * 12); err != nil {
+				return fmt.Errorf("crash image: cut commit log to %d entries: %w", c, err)
+			}
+			if err := cl.Close(); err != nil {
+				return err
+			}
+			dir = img
+			t, err = ahtree.Open(dir, mkopts())
+			if err != nil {
+				return fmt.Errorf("open of a crash image (commit log cut to %d of %d entries) after ops %v: %w", c, len(disk), ops, err)
+			}
+			disk = append([][]byte{}, disk[:c]...)
+			payloads = append([][]byte{}, disk...)
+			mops = append(mops, fmt.Sprintf("Crash2 %d", c))
+			ops = append(ops, fmt.Sprintf("crash(%d)", c))
 		default:
 			// read something (exercises the caches)
 			if len(payloads) > 0 {
@@ -145,6 +223,13 @@ func ahtHistory(r *vk.Run, maxN int, withProofs bool) error {
 		roots[k-1], err = t.RootAt(uint64(k))
 		if err != nil {
 			return fmt.Errorf("RootAt(%d) of %d after ops %v: %w", k, n, ops, err)
+		}
+	}
+	// direct oracle: the reference Merkle tree hash computed by the harness itself
+	for k := 1; k <= n; k++ {
+		if roots[k-1] != refMTH(payloads[:k]) {
+			r.Finding(fmt.Sprintf("ahtree.RootAt(%d) is not the reference Merkle tree hash of the first %d payloads (size %d, ops %v)", k, k, n, ops))
+			break
 		}
 	}
 	r.Case(fmt.Sprintf("CAht %s %s", bytesList(payloads), digList(roots)),
@@ -548,8 +633,8 @@ func shaCases(r *vk.Run, n int) {
 	}
 }
 
-// resetReopenProbe: rewind, re-append, restart. The tree must come back with the rewound content.
-func resetReopenProbe(r *vk.Run) error {
+// resetReopenProbe: rewind, (re-append,) restart. The tree must come back with the rewound content.
+func resetReopenProbe(r *vk.Run, reappend bool) error {
 	dir, err := os.MkdirTemp("", "vh-c08-probe")
 	if err != nil {
 		return err
@@ -567,8 +652,12 @@ func resetReopenProbe(r *vk.Run) error {
 	if err := t.ResetSize(2); err != nil {
 		return err
 	}
-	if _, _, err := t.Append([]byte{9}); err != nil {
-		return err
+	mops, want, what := "R2 2; Reopen2", uint64(2), "ahtree bare rewind not durable: append x5, ResetSize(2), Close, Open"
+	if reappend {
+		if _, _, err := t.Append([]byte{9}); err != nil {
+			return err
+		}
+		mops, want, what = "R2 2; A2 (hex \"09\"); Reopen2", 3, "ahtree rewind not durable: append x5, ResetSize(2), Append, Close, Open"
 	}
 	if err := t.Close(); err != nil {
 		return err
@@ -579,10 +668,10 @@ func resetReopenProbe(r *vk.Run) error {
 	}
 	defer t.Close()
 	// the same history on the model (the restart re-derives the size from the commit-log file)
-	r.Case(fmt.Sprintf("CAhtProbe [A2 (hex \"00\"); A2 (hex \"01\"); A2 (hex \"02\"); A2 (hex \"03\"); A2 (hex \"04\"); R2 2; A2 (hex \"09\"); Reopen2] %d", t.Size()),
-		map[string]any{"kind": "ahtprobe", "size": t.Size()}, "aht/probe", true)
-	if t.Size() != 3 {
-		r.Finding(fmt.Sprintf("ahtree rewind not durable: append x5, ResetSize(2), Append, Close, Open => Size() = %d, expected 3", t.Size()))
+	r.Case(fmt.Sprintf("CAhtProbe [A2 (hex \"00\"); A2 (hex \"01\"); A2 (hex \"02\"); A2 (hex \"03\"); A2 (hex \"04\"); %s] %d", mops, t.Size()),
+		map[string]any{"kind": "ahtprobe", "size": t.Size(), "reappend": reappend}, "aht/probe", true)
+	if t.Size() != want {
+		r.Finding(fmt.Sprintf("%s => Size() = %d, expected %d", what, t.Size(), want))
 	}
 	return nil
 }
@@ -620,8 +709,10 @@ func Gen(r *vk.Run, n int) error {
 	accIncl, accLast = map[string]dig{}, map[string]dig{}
 	shaCases(r, 20)
 	arithCases(r)
-	if err := resetReopenProbe(r); err != nil {
-		r.Finding(fmt.Sprintf("ahtree operation failed in the rewind/reopen probe (append x5, ResetSize(2), Append, Close, Open): %v", err))
+	for _, reappend := range []bool{true, false} {
+		if err := resetReopenProbe(r, reappend); err != nil {
+			r.Finding(fmt.Sprintf("ahtree operation failed in the rewind/reopen probe (append x5, ResetSize(2), Append=%v, Close, Open): %v", reappend, err))
+		}
 	}
 	// small trees exhaustively with all proofs (every i <= j <= size), larger ones for roots only
 	ahtBudget := n * 6 / 10
